@@ -903,6 +903,47 @@ func everyViewGetsTheDepth(p *Prog, r *Report, rule string) {
 		}
 	})
 	n := 0
+	// a constructor helper that did not exist on the pinned tree (and is not inlined, e.g. because it
+	// lives in another file with other imports): the literal sets the field from one of the helper's
+	// parameters, and every call from initializeChainLayers passes the depth there
+	for _, h := range withAnon(fn) {
+		if h == fn || h.Parent() != nil {
+			continue
+		}
+		forEachInstr(h, func(_ *ssa.BasicBlock, _ int, in ssa.Instruction) {
+			al, ok := in.(*ssa.Alloc)
+			if !ok {
+				return
+			}
+			if st, nm := structOf(al.Type()); st == nil || nm == nil || nm.Obj().Name() != "chainLayer" {
+				return
+			}
+			n++
+			pi := -1
+			for _, ref := range *al.Referrers() {
+				if fa, isFA := ref.(*ssa.FieldAddr); isFA {
+					if _, f, _, okF := fieldOf(fa); okF && f == "maxSymlinkDepth" {
+						for _, r2 := range *fa.Referrers() {
+							if st, isSt := r2.(*ssa.Store); isSt {
+								for i, prm := range h.Params {
+									if st.Val == ssa.Value(prm) {
+										pi = i
+									}
+								}
+							}
+						}
+					}
+				}
+			}
+			okCalls := pi >= 0
+			forEachInstr(fn, func(_ *ssa.BasicBlock, _ int, ci ssa.Instruction) {
+				if c, isC := ci.(*ssa.Call); isC && c.Call.StaticCallee() == h && pi >= 0 && pi < len(c.Call.Args) && c.Call.Args[pi] != ssa.Value(depth) {
+					okCalls = false
+				}
+			})
+			r.Check(okCalls, rule, fmt.Sprintf("%s:view-built-by-%s-gets-the-depth", fnKey(fn), h.Name()), p.Pos(al.Pos()), "the constructor sets maxSymlinkDepth from a parameter that every call gives the configured depth", "a chain layer built by "+h.Name()+" does not get the configured maximum symlink depth: every symlink in such a view fails with a depth error although its chain is within the configured number of hops")
+		})
+	}
 	forEachInstr(fn, func(_ *ssa.BasicBlock, _ int, in ssa.Instruction) {
 		al, ok := in.(*ssa.Alloc)
 		if !ok {
